@@ -92,6 +92,30 @@ def run(chk, replay=None):
                 rc, so = dec(ct, other); chk.count()
                 if rc == 0: chk.violate('decrypt with a different key succeeded', {'plaintext': s[:60]}, tags=['wrongkey'])
             chk.streams.append({'stream': 'redact --encrypt -> decrypt through the CLI', 'key': ki, 'strings': len(sub), 'corruptions': len(bad)})
+    # many distinct values in one run, then early ones again (one process; equal plaintexts far apart must still decrypt to themselves)
+    with tempfile.TemporaryDirectory() as d:
+        keyf = os.path.join(d, 'k.key'); open(keyf, 'wb').write(base64.b64encode(bytes(range(64))))
+        vals = ['customer-%04d ünï' % i for i in range(700 if th else 320)] + ['customer-0000 ünï', 'customer-0001 ünï', 'customer-0002 ünï']
+        inp = os.path.join(d, 'in.log')
+        open(inp, 'wb').write(b''.join(json.dumps({'t': {'$date': '2020-01-01T00:00:00.000+00:00'}, 's': 'I', 'c': 'COMMAND', 'id': 1, 'ctx': 'c', 'msg': 'Slow query', 'attr': {'ns': 'd.c', 'command': {'find': 'c', 'filter': {'f': v}}}}, ensure_ascii=False).encode() + b'\n' for v in vals))
+        outp = os.path.join(d, 'out.log')
+        p = subprocess.run([CLI, 'redact', inp, '-o', outp, '-y', '-q', keyf], stdin=subprocess.DEVNULL, capture_output=True)
+        outl = open(outp, 'rb').read().split(b'\n')[:-1] if os.path.exists(outp) else []
+        chk.count(len(vals))
+        if p.returncode != 0 or len(outl) != len(vals):
+            chk.violate('redact --encrypt failed on a long run', {'rc': p.returncode, 'lines': len(outl)}, tags=['cli'])
+        else:
+            cts = [json.loads(ol)['attr']['command']['filter']['f'] for ol in outl]
+            if cts[-3:] != cts[:3]:
+                chk.violate('equal plaintexts far apart in one run got different ciphertexts', {'first': cts[:3], 'again': cts[-3:]}, tags=['determinism', 'longrun'])
+            for v, ct in list(zip(vals, cts))[-3:] + list(zip(vals, cts))[255:260]:
+                pr = subprocess.run([CLI, 'decrypt', '--decryptionKeyFile', keyf, '--', ct], stdin=subprocess.DEVNULL, capture_output=True)
+                marker = b'Raw value: '
+                got = pr.stdout[pr.stdout.find(marker) + len(marker):-1] if marker in pr.stdout else None
+                chk.count()
+                if pr.returncode != 0 or got != v.encode('utf-8'):
+                    chk.violate('decrypt does not return the original string (long run)', {'plaintext': v, 'got': (got or b'').decode('utf-8', 'replace')}, tags=['roundtrip', 'longrun'])
+    chk.streams.append({'stream': 'one run over many distinct values followed by repeats', 'values': len(vals)})
     # the same round trip when the input comes from Atlas (the other input channel of `redact --encrypt`)
     from vlib import atlaslib, streamlib
     secrets = ['AtlasSecret Zq77qZ', 'héllo wörld 中', '']
